@@ -8,7 +8,7 @@ From Coq Require Import List NArith ZArith Bool.
 From GoGit Require Import Base.Out Model.PktLine Model.C35Utf8 Model.Packp Model.PackpV2
   Proofs.C34Pkt Proofs.C35Base Proofs.C35Msgs Proofs.C35Caps Proofs.C35Adv Proofs.C35Upd Proofs.C35Ul
   Proofs.C35V2Base Proofs.C35V2Caps Proofs.C35V2Fetch Proofs.C35V2Ls Proofs.C35V2Out
-  Spec.GitProto Proofs.C35Git Proofs.C35GitV2 Proofs.C35GitV0.
+  Spec.GitProto Proofs.C35Git Proofs.C35GitV2 Proofs.C35GitV0 Proofs.C35GitAdv Proofs.C35GitUpd Proofs.C35GitCmd.
 Import ListNotations.
 
 (* capability.List: DecodeList (l.String()) = l for lists with distinct,
@@ -272,6 +272,37 @@ Theorem C35_ulreq_git : forall hexsz u, ul_ok u = true -> ul_git_ok hexsz u = tr
   exists ps, ul_encode u = ULok ps /\ git_ulreq hexsz ps = Some (ul_abs (ul_canon u)).
 Proof. exact git_ulreq_enc. Qed.
 Print Assumptions C35_ulreq_git.
+
+(* advertised-refs (v0 / v1): the capability words, the references in wire order, the sorted shallows.
+   adv_git_ok: one object format, no reference called capabilities^{} *)
+Theorem C35_advrefs_git : forall hexsz a ps, adv_ok a = true -> adv_git_ok hexsz a = true -> adv_encode a = Some ps ->
+  git_advrefs hexsz ps = Some (adv_abs a).
+Proof. exact git_advrefs_enc. Qed.
+Print Assumptions C35_advrefs_git.
+
+(* update-requests: shallow lines, the first command with the capabilities behind a NUL, the other commands, flush-pkt *)
+Theorem C35_updreq_git : forall hexsz u ps, ur_ok u = true -> ur_git_ok hexsz u = true -> ur_encode u = Some ps ->
+  git_updreq hexsz ps = Some (ur_abs u).
+Proof. exact git_updreq_enc. Qed.
+Print Assumptions C35_updreq_git.
+
+(* v2 command request: the frame (command=, capabilities, delim-pkt), then the arguments up to the flush-pkt *)
+Theorem C35_cmdreq_git : forall c ps, cmdreq_ok c = true -> cmdreq_encode c = Some ps ->
+  exists al, cargs_encode (cr_args c) = Some al /\
+             git_cmdreq ps = Some (Some (cr_command c, map cap2_abs (cr_caps c), al ++ [PFlush])).
+Proof. exact git_cmdreq_enc. Qed.
+Print Assumptions C35_cmdreq_git.
+
+Theorem C35_lsargs_git : forall a al, lsargs_ok a = true -> lsargs_encode a = Some al ->
+  git_lsargs (al ++ [PFlush]) (mkglsargs false false false []) = Some (ls_abs a).
+Proof. exact git_lsargs_enc. Qed.
+Print Assumptions C35_lsargs_git.
+
+(* fetch arguments: fa_git_ok asks for one object format, a depth below 2^31 and a positive deepen-since *)
+Theorem C35_fetchargs_git : forall hexsz a al, fetchargs_ok a = true -> fa_git_ok hexsz a = true -> fetchargs_encode a = Some al ->
+  git_fetchargs hexsz (al ++ [PFlush]) (mkgfetchargs [] [] [] [] None None [] None) = Some (fa_abs (fetchargs_canon a)).
+Proof. exact git_fetchargs_enc. Qed.
+Print Assumptions C35_fetchargs_git.
 
 (* v2: git reads each capability line as key[=value]; the values of a key are one blank-separated value *)
 Theorem C35_capadv_git : forall l ps, caps2_ok l = true -> capadv_encode 2 l = Some ps -> git_capadv ps = Some (map cap2_abs l).
